@@ -98,6 +98,8 @@ def connectivity2bond_orders(
     if allow_charged_fragments:
         mol_charge = 0
         for i, atom_nr in enumerate(atom_nrs):
+            if atom_nr not in atomic_valence_electrons:
+                continue  # no valence data (e.g. metals): left uncharged
             atom_charge = _get_atomic_charge(atom_nr,
                                    atomic_valence_electrons=atomic_valence_electrons[atom_nr],
                                    BO_valence=BO_valences[i])
@@ -115,6 +117,8 @@ def connectivity2bond_orders(
 
     # set atomic radicals
     for i, atom_nr in enumerate(atom_nrs):
+        if atom_nr not in atomic_valence_electrons:
+            continue  # no valence data (e.g. metals): no radical assigned
         atom_charge = _get_atomic_charge(atom_nr,
                                    atomic_valence_electrons=atomic_valence_electrons[atom_nr],
                                    BO_valence=BO_valences[i])
@@ -328,6 +332,8 @@ def _charge_is_OK(
     if allow_charged_fragments:
         BO_valences = list(BO.sum(axis=1))
         for i, atom in enumerate(atom_nrs):
+            if atom not in atomic_valence_electrons:
+                continue
             q: int = _get_atomic_charge(
                 atom, atomic_valence_electrons[atom], BO_valences[i]
             )
